@@ -472,7 +472,7 @@ class QueryTimeout(Exception):
     pass
 
 
-QUERY_LIMIT_S = 20.0   # CPU seconds of this process (ITIMER_VIRTUAL): waiting for a busy machine does not count
+QUERY_LIMIT_S = 8.0   # CPU seconds of this process (ITIMER_VIRTUAL): waiting for a busy machine does not count
 _WATCHDOG = {"on": False, "timeouts": 0}
 
 
@@ -1382,8 +1382,8 @@ def run(ctx):
         parts = [corpus[:half], corpus[half:]] if len(corpus) > 1 else [corpus, []]
         shard.run_shards(ctx, _shard, [(pid, ctx.seed, 999 + i, 0, ctx.tier, 120, part) for i, part in enumerate(parts)])
     nshards = 16
-    per = ctx.scale(6, 60) if pid == "C11" else ctx.scale(8, 80)
-    budget = ctx.scale(45, 700)
+    per = ctx.scale(6, 240) if pid == "C11" else ctx.scale(8, 300)
+    budget = ctx.scale(45, 800)
     shard.run_shards(ctx, _shard, [(pid, ctx.seed, i, per, ctx.tier, budget, None) for i in range(nshards)])
     # step 3 of the contract: a divergence without a failing input -> search the neighbourhood
     known = set()
